@@ -969,6 +969,9 @@ class ProcessSyncGroup(SyncGroup, SimulatedEBPF):
         self.process = self.ctx.Process(target=self.subprocess_run)
         self.process.start()
         self.task = ensure_future(self.wait_for_process())
+        # a task cancelled before its first step never enters its coroutine
+        self.task.add_done_callback(
+            lambda task: setattr(self.runningValue, "value", False))
         return self.task
 
 
